@@ -243,10 +243,19 @@ def copy_by_object_protocol(h, roots):
         if isinstance(v, Seq):
             return Seq([conv(x) for x in v.items], v.kind)
         if isinstance(v, DictV):
-            return DictV([[conv(k), conv(x)] for k, x in v.pairs])
+            return DictV([[hashed(conv(k)), conv(x)] for k, x in v.pairs])
         if isinstance(v, SetV):
-            return SetV([conv(x) for x in v.items], v.frozen)
+            return SetV([hashed(conv(x)) for x in v.items], v.frozen)
         return v
+
+    def hashed(c):
+        """the unpickler inserts elements into sets / dict keys as soon as they are created: a user __hash__ runs on the
+        new object, which - in a reference cycle - may not have its state restored yet"""
+        if isinstance(c, Obj):
+            hm, owner = c.cls.lookup("__hash__")
+            if hm is not None and not owner.builtin:
+                I.call(hm, [c], {})
+        return c
 
     def clone(o):
         if id(o) in clones:
@@ -298,6 +307,12 @@ def roundtrip_state(ctx, h, res):
                 except Unknown as un:
                     res.ob(False)
                     res.undecide(f"round-trip state dump_flag={dump_flag} load_flag={load_flag}: {un}")
+                    continue
+                except Raised as r:
+                    n += 1
+                    res.ob(False, sig=("roundtrip", dump_flag, load_flag, warm))
+                    res.violation("ROUNDTRIP-STATE", "edgegraph.structure.base.BaseObject", "reconstruction-raises",
+                                  f"re-creating the objects through the object protocol raises {r} (a user __hash__/__setstate__ runs on an object of a reference cycle before its state is restored)")
                     continue
                 n += 1
                 want = [["b'"], ["b'"], ["a'", "b'"], None, ["c'"], None, []]
